@@ -358,6 +358,35 @@ validations:
 `)
 }
 
+func init() {
+	// 9: YAML anchors and merge keys next to a mapping's own keys: whatever the parser makes of `<<` (this one ignores
+	// it; an alias as a whole constraint block is rejected, so it cannot be part of a base profile), key order must not matter
+	c15Bases = append(c15Bases, `profile: c15 anchors and merge keys
+prefixes:
+  ex: http://ex.org/
+definitions:
+  defaults: &defaults
+    minCount: 1
+    maxCount: 1
+  loose: &loose
+    maxCount: 5
+    minCount: 0
+violation:
+  - merged
+validations:
+  merged:
+    message: own keys next to a merge key
+    targetClass: ex.T
+    propertyConstraints:
+      ex.p1:
+        minCount: 2
+        <<: *defaults
+      ex.c:
+        <<: *defaults
+        maxCount: 3
+`)
+}
+
 const apiExtNS = "http://a.ml/vocabularies/api-extension#"
 const coreNS = "http://a.ml/vocabularies/core#"
 
@@ -720,7 +749,7 @@ func c15Canon(text string) (string, error) {
 func init() {
 	Register(Meta{
 		ID: "C15", Level: "model_checking", LongCases: true,
-		Rule:        "state = profile YAML text; initial states = 9 base profiles (among them: sibling keys at every mapping level with nested two levels and and/or of three operands; three validations over three levels with placeholders and a user prefix bound to a default namespace; several quantified constraints under one propertyConstraints map; conditionals/negation/several constraints on one property; a custom domain property through a user prefix; Rego operands; 28 quantified siblings; the name of a default prefix bound to another namespace next to a user alias of the default namespace; mappings that carry `and` and `or` at once); transitions, every applicable (operator, position): swap two adjacent keys of any mapping, swap two adjacent items of any sequence (level lists, and/or operands, value lists), rename a user prefix consistently, replace a user prefix by a default prefix bound to the same namespace, plain/single/double quoting of any string scalar (keys included), flow<->block style of any collection, comment insertion, indent width, CRLF line ends, trailing blanks. Depth-bounded search deduplicated on the text; every successor is first validated to denote the same abstract profile (canonical form with IRIs expanded and collections unordered); every state's (conforms, result set with messages) on a data graph must equal the base spelling's.",
+		Rule:        "state = profile YAML text; initial states = 10 base profiles (among them: sibling keys at every mapping level with nested two levels and and/or of three operands; three validations over three levels with placeholders and a user prefix bound to a default namespace; several quantified constraints under one propertyConstraints map; conditionals/negation/several constraints on one property; a custom domain property through a user prefix; Rego operands; 28 quantified siblings; the name of a default prefix bound to another namespace next to a user alias of the default namespace; mappings that carry `and` and `or` at once; anchors, aliases and merge keys); transitions, every applicable (operator, position): swap two adjacent keys of any mapping, swap two adjacent items of any sequence (level lists, and/or operands, value lists), rename a user prefix consistently, replace a user prefix by a default prefix bound to the same namespace, plain/single/double quoting of any string scalar (keys included), flow<->block style of any collection, comment insertion, indent width, CRLF line ends, trailing blanks. Depth-bounded search deduplicated on the text; every successor is first validated to denote the same abstract profile (canonical form with IRIs expanded and collections unordered); every state's (conforms, result set with messages) on a data graph must equal the base spelling's.",
 		Assumptions: []string{"block scalars do not occur in the base profiles (trailing-blank and CRLF rewrites would change them)"},
 	}, c15Gen, c15Run)
 }
